@@ -384,6 +384,21 @@ def lit(text):
     return slit(text)
 
 
+SEG_IX = {seg: i for i, seg in enumerate(SEGS)}
+
+
+def seg_lit(result):
+    """a grid result written as leading slashes + indices into SEGS (the
+    model's [seg_path] rebuilds the string); literal when it is not one"""
+    init = len(result) - len(result.lstrip("/"))
+    rest = result[init:]
+    parts = rest.split("/") if rest else []
+    if all(part in SEG_IX for part in parts):
+        return "(seg_path SEGS %d [%s])" % (
+            init, ";".join(str(SEG_IX[part]) for part in parts))
+    return lit(result)
+
+
 def coq_tables(nodes, dirs):
     tline = ";\n  ".join("(%s, %s)" % (lit(k), v) for k, v in nodes.items())
     dline = ";\n  ".join("(%s, [%s])" % (lit(k), ";".join(lit(i) for i in v))
@@ -395,6 +410,14 @@ def coq_tables(nodes, dirs):
             "Definition D (r : list Z) := "
             "map (fun kn => (r ++ fst kn, snd kn)) RELD.\n"
             % (tline, dline))
+
+
+def spread(cases, shard=400):
+    """deal the cases round-robin over the shards coq_eval will cut, so
+    that runs of heavy cases do not end up in one Coq process"""
+    nshard = max(1, -(-len(cases) // shard))
+    return [cases[i] for i in sorted(range(len(cases)),
+                                     key=lambda i: (i % nshard, i))]
 
 
 def opt(text):
@@ -417,9 +440,9 @@ def run(ctx):
 
     # ------------------------------------------- (a) normpath on the grid
     if ctx.quick:
-        plan = [(1, 0), (2, 0), (3, 0), (3, 1)]     # (prefix segments, k)
+        plan = [(1, 0), (1, 1), (2, 1), (3, 1)]     # (prefix segments, k)
     else:
-        plan = [(1, 0), (2, 0), (3, 0), (3, 1), (3, 2)]
+        plan = [(1, 0), (1, 1), (2, 1), (3, 1), (3, 2)]
     header = ("Require Import PW.model.StaticPath.\n"
               "Import ListNotations.\nOpen Scope Z_scope.\n" + DC +
               "Definition SEGS : list (list Z) := [%s].\n"
@@ -432,7 +455,7 @@ def run(ctx):
             table = sorted(set(results))
             where = {r: i for i, r in enumerate(table)}
             expected = "(Vpick [%s] [%s])" % (
-                ";".join(lit(r) for r in table),
+                ";".join(seg_lit(r) for r in table),
                 ";".join(str(where[r]) for r in results))
             cases.append(("run_grid %s SEGS %d" % (lit(prefix), k),
                           expected, ("normpath-grid", prefix, k)))
@@ -455,7 +478,7 @@ def run(ctx):
                       ("normpath", text)))
         ctx.count("normpath hostile")
         ctx.case(("np", text), True)
-    ctx.correspondence("normpath", header, cases,
+    ctx.correspondence("normpath", header, spread(cases),
                        lambda p: [repr(x) for x in p])
     marks.append(("normpath correspondence", time.time()))
     ctx.samples.append({"normpath": "/sub//../..x/./a",
@@ -502,6 +525,8 @@ def run(ctx):
             header += "Definition %s : list Z := %s.\n" % (name_of[text],
                                                            slit(text))
         header += coq_tables(*fs_tables(tree, readable))
+        header += "Definition SEGS : list (list Z) := [%s].\n" % ";".join(
+            slit(seg) for seg in SEGS)
 
         def vs(text, eff):
             """(VS text), written relative to the effective root string"""
@@ -512,8 +537,11 @@ def run(ctx):
         in_tokens = tree.inside_tokens()
 
         # ---------------- request plan
-        plan = []                       # (config, method, request path text)
+        # singles: (config, method, path text); groups: (config, method,
+        # prefix, k) = the requests prefix + t for t in grid_tails(k)
+        singles, groups = [], []
         by_name = {c.name: c for c in cfgs}
+        main_cfg = by_name["abs-index"]
         core = core_paths(tree)
         for cfg in cfgs:
             full = cfg.name in ("abs-index", "env-abs-over-other",
@@ -521,14 +549,19 @@ def run(ctx):
             for method in (ALL_METHODS if full else
                            ["GET", "HEAD", "POST", "BREW"]):
                 for text in core:
-                    plan.append((cfg, method, text))
-        small = grid_paths(3 if ctx.quick else 4)
-        for text in small:
-            plan.append((by_name["abs-index"], "GET", text))
+                    singles.append((cfg, method, text))
+        # the grid, exhaustively on the main configuration
+        for text in grid_prefixes(1) + grid_prefixes(2):
+            singles.append((main_cfg, "GET", text))
+        for prefix in grid_prefixes(2):
+            groups.append((main_cfg, "GET", prefix, 1))           # 3 segments
         if not ctx.quick:
-            for text in grid_paths(3):
-                for cfg in cfgs[1::3]:
-                    plan.append((cfg, ctx.rng.choice(["GET", "HEAD"]), text))
+            for prefix in grid_prefixes(3):
+                groups.append((main_cfg, "GET", prefix, 1))       # 4 segments
+            for cfg in cfgs[1::3]:
+                for prefix in grid_prefixes(2):
+                    groups.append((cfg, ctx.rng.choice(["GET", "HEAD"]),
+                                   prefix, 1))
         # sampled longer paths over every configuration and method
         nmax = 4 if ctx.quick else 5
         for _ in range(4000 if ctx.quick else 30000):
@@ -538,14 +571,24 @@ def run(ctx):
                 text += ctx.rng.choice(JOINERS) + ctx.rng.choice(SEGS)
             method = "GET" if ctx.rng.random() < 0.6 else \
                 ctx.rng.choice(ALL_METHODS)
-            plan.append((ctx.rng.choice(cfgs), method, text))
+            singles.append((ctx.rng.choice(cfgs), method, text))
         for text in hostile_paths(tree, ctx.rng, 800 if ctx.quick else 8000):
             method = "GET" if ctx.rng.random() < 0.7 else \
                 ctx.rng.choice(ALL_METHODS)
-            plan.append((ctx.rng.choice(cfgs), method, text))
+            singles.append((ctx.rng.choice(cfgs), method, text))
 
-        cases = []
-        for cfg, method, text in plan:
+        def model_args(cfg):
+            eff = cfg.effective_root()
+            return "(T %s) (D %s) %s %s %s %s %s" % (
+                name_of[eff], name_of[eff],
+                opt(None if cfg.env_root is None else name_of[cfg.env_root]),
+                name_of[cfg.attr_root],
+                opt(None if cfg.env_index is None else slit(cfg.env_index)),
+                blit(cfg.attr_index), blit(cfg.debug))
+
+        def one(cfg, method, text):
+            """one request: runs the monitor, returns (model term, expected V
+            text, replay, request path seen by the application)"""
             wire = to_wire(text)
             extra = {}
             if cfg.env_root is not None:
@@ -591,13 +634,8 @@ def run(ctx):
             else:
                 outcome = [Exn("other")]
             eff = cfg.effective_root()
-            term = "run_serve (T %s) (D %s) %s %s %s %s %s %s %s" % (
-                name_of[eff], name_of[eff],
-                opt(None if cfg.env_root is None else name_of[cfg.env_root]),
-                name_of[cfg.attr_root],
-                opt(None if cfg.env_index is None else slit(cfg.env_index)),
-                blit(cfg.attr_index), blit(cfg.debug), lit(method),
-                lit(req_path))
+            term = "run_serve %s %s %s" % (model_args(cfg), lit(method),
+                                           lit(req_path))
             # rendered here (core runs as __main__, its Exn class is not
             # ours); same shape as to_v([[Exn(kind), ...], probed-or-None])
             parts = ['VX "%s"' % outcome[0].name]
@@ -608,7 +646,6 @@ def run(ctx):
                     "(VS %s)" % lit(row) for row in outcome[2]))
             expected = "(VL [(VL [%s]); %s])" % (
                 "; ".join(parts), vs(probed[0], eff) if probed else "VN")
-            cases.append((term, expected, replay))
             ctx.count("config " + cfg.name)
             ctx.count("method " + (method if method in ("GET", "HEAD")
                                    else "other-known" if method in KNOWN_OTHER
@@ -712,8 +749,33 @@ def run(ctx):
                      dict(replay, kind=kind) if kind in ("file", "dir")
                      and ".." in mon_path else None)
             ctx.count("target " + kind)
+            return term, expected, replay, req_path
+
+        cases = []
+        for cfg, method, text in singles:
+            term, expected, replay, _ = one(cfg, method, text)
+            cases.append((term, expected, replay))
+        for cfg, method, prefix, k in groups:
+            table, where, idx, okay = [], {}, [], True
+            for tail in grid_tails(k):
+                term, expected, replay, seen = one(cfg, method, prefix + tail)
+                if seen != prefix + tail:        # never for grid segments
+                    okay = False
+                    cases.append((term, expected, replay))
+                if expected not in where:
+                    where[expected] = len(table)
+                    table.append(expected)
+                idx.append(where[expected])
+            if okay:
+                cases.append((
+                    "run_serve_grid %s %s %s SEGS %d" % (
+                        model_args(cfg), lit(method), lit(prefix), k),
+                    "(Vpickv [%s] [%s])" % (";".join(table),
+                                            ";".join(map(str, idx))),
+                    dict(cfg.describe(), REQUEST_METHOD=method,
+                         PATH_INFO_prefix=to_wire(prefix), grid_tail_segments=k)))
         marks.append(("application runs + monitor", time.time()))
-        ctx.correspondence("serve", header, cases, lambda p: p)
+        ctx.correspondence("serve", header, spread(cases), lambda p: p)
         marks.append(("serve correspondence", time.time()))
     finally:
         wsgi.path, wsgi.access, response.access, results.os = saved
